@@ -14,6 +14,9 @@ JOBS = [
   Job("c10.tree.get.bounded", TU, "h_get", kind="bounded", cbmc=U70, defines=["-DHIST=2"], fuc=["myth_tls_tree_get", "myth_tls_tree_init"] + TREE_FUC, timeout=600, mem_gb=12, note=HNOTE % 2, unknown_ok=UNK),
   Job("c10.tree.set.bounded", TU, "h_set", kind="bounded", cbmc=U70, defines=["-DHIST=2"], fuc=TREE_FUC, timeout=900, mem_gb=12, note=HNOTE % 2, unknown_ok=UNK),
   Job("c10.tree.set.hist3.bounded", TU, "h_set", kind="bounded", cbmc=U70, defines=["-DHIST=3"], fuc=TREE_FUC, timeout=3000, mem_gb=16, tiers=("thorough",), note=HNOTE % 3, unknown_ok=UNK),
+  Job("c10.tree.set_then_walk.bounded", TU, "h_set_then_walk", kind="bounded", cbmc=U70, defines=["-DHIST=2"],
+      fuc=["myth_tls_tree_set"], timeout=900, mem_gb=12, unknown_ok=UNK,
+      note=HNOTE % 2 + "; the slot is looked up with the numbering of the destructor walk (contract of c11.destructors_rec)"),
   Job("c10.tree.init", TU, "h_init", cbmc=U70, fuc=["myth_tls_tree_init", "myth_tls_tree_get"], timeout=600,
       note="complete: any descriptor contents, any key index"),
   Job("c10.ka.init", TU, "h_ka_init", cbmc=U1030, fuc=["myth_tls_key_allocator_init"], timeout=600,
